@@ -113,12 +113,28 @@ def tokens_of(s):
 @st.composite
 def edited(draw, base_strategy=None):
     """A single-token edit (insert / delete / replace / transpose) of a valid sentence."""
-    struct = draw(base_strategy or structures(max_atoms=60, max_tuples=8))
+    size = draw(st.sampled_from(["short", "short", "short", "short", "long"]))
+    struct = draw(base_strategy or (structures(max_atoms=60, max_tuples=8) if size == "short" else structures(max_atoms=300, max_tuples=45)))
     toks = tokens_of(spell(struct))
-    op = draw(st.sampled_from(["insert", "delete", "replace", "transpose", "insert", "replace"]))
+    op = draw(st.sampled_from(["insert", "delete", "replace", "transpose", "insert", "replace", "truncate", "append", "delete_last", "edit_tail"]))
     tok = draw(st.one_of(st.sampled_from(ALPHABET_TOKENS), st.sampled_from(JUNK_TOKENS), st.sampled_from(SYMBOLS)))
     if not toks:
         op = "insert"
+    if op == "truncate":
+        return "".join(toks[: draw(st.integers(0, len(toks)))])
+    if op == "append":
+        return "".join(toks + [tok] + ([draw(st.sampled_from(ALPHABET_TOKENS))] if draw(st.booleans()) else []))
+    if op == "delete_last":
+        return "".join(toks[:-1])
+    if op == "edit_tail":
+        # an edit within the last few tokens (errors close to the end of a long string)
+        i = max(0, len(toks) - 1 - draw(st.integers(0, 5)))
+        how = draw(st.sampled_from(["replace", "delete", "insert"]))
+        if how == "replace":
+            return "".join(toks[:i] + [tok] + toks[i + 1 :])
+        if how == "delete":
+            return "".join(toks[:i] + toks[i + 1 :])
+        return "".join(toks[:i] + [tok] + toks[i:])
     if op == "insert":
         i = draw(st.integers(0, len(toks)))
         toks = toks[:i] + [tok] + toks[i:]
